@@ -405,6 +405,7 @@ impl Run {
         let mut summary = J::obj();
         let mut summaries = Vec::new();
         let mut tool_errors: Vec<String> = Vec::new();
+        let mut third_party: Vec<String> = Vec::new();
         let mut leg_viol = 0u64;
         let lines: Vec<&str> = text.lines().collect();
         for (n, line) in lines.iter().enumerate() {
@@ -440,6 +441,28 @@ impl Run {
                 || line.contains("definitely lost:") && !line.contains("definitely lost: 0 bytes")
                 || line.contains("uninitialised value")
             {
+                // Miri reports carry a backtrace: a report none of whose frames is in the repository (nor in the
+                // harness code that calls it) concerns third-party code only and is not a verdict on the property
+                if line.starts_with("error: Undefined Behavior") || line.starts_with("error: Data race") || line.starts_with("error: unsupported operation") {
+                    let mut in_repo = false;
+                    let mut first_loc = String::new();
+                    for l2 in lines.iter().skip(n + 1).take(400) {
+                        if l2.starts_with("error:") {
+                            break;
+                        }
+                        if l2.contains("/repo/src/") || l2.contains("harness/src/") {
+                            in_repo = true;
+                            break;
+                        }
+                        if first_loc.is_empty() && l2.trim_start().starts_with("-->") {
+                            first_loc = l2.trim().to_string();
+                        }
+                    }
+                    if !in_repo {
+                        third_party.push(format!("{} {}", line.trim(), first_loc));
+                        continue;
+                    }
+                }
                 // context: the first following line that names a source location
                 let mut ctx = String::new();
                 for l2 in lines.iter().skip(n + 1).take(40) {
@@ -501,6 +524,16 @@ impl Run {
                 detail: J::obj().set("leg", leg).set("log", log_path).set("report", e.clone()),
             });
         }
+        third_party.sort();
+        third_party.dedup();
+        for t in &third_party {
+            self.merged.inconclusive(format!(
+                "leg {}: the tool reported a problem whose backtrace lies entirely in third-party code (no frame in /repo/src): {}",
+                leg,
+                t.chars().take(300).collect::<String>()
+            ));
+        }
+        summary.put("third_party_only_reports", third_party.len());
         summary.put("status", status.map(|s| J::I(s as i64)).unwrap_or(J::Null));
         summary.put("tool_error_reports", tool_errors.len());
         summary.put("leg_violations", leg_viol);
@@ -517,7 +550,9 @@ impl Run {
         }
         // status classification
         let ok = status == Some(0) && !summaries.is_empty();
-        if !ok && tool_errors.is_empty() && leg_viol == 0 {
+        if !ok && tool_errors.is_empty() && leg_viol == 0 && !third_party.is_empty() {
+            summary.put("verdict", "inconclusive (third-party report)");
+        } else if !ok && tool_errors.is_empty() && leg_viol == 0 {
             let tail: Vec<String> = lines.iter().rev().take(5).rev().map(|s| s.to_string()).collect();
             self.merged.inconclusive(format!(
                 "leg {}: exit status {:?}, {} summaries (build failure, timeout or watchdog) tail={:?}",
